@@ -9,6 +9,26 @@ TRUSTED_COMMON = [
 ]
 
 PROPS = {
+    'C01': dict(
+        module='Hpfeeds.Props.C01', file='Hpfeeds/Props/C01.lean',
+        engines=[('broker', dict(prop='C01'))],
+        trusted=['asyncio transport/loop contract as implemented by harness FakeTransport/VirtualLoop (DESIGN.md 3c)', 'callback granularity: every broker callback runs to completion (single-threaded asyncio)'],
+    ),
+    'C03': dict(
+        module='Hpfeeds.Props.C03', file='Hpfeeds/Props/C03.lean',
+        engines=[('broker', dict(prop='C03'))],
+        trusted=['asyncio transport/loop contract as implemented by harness FakeTransport/VirtualLoop (DESIGN.md 3c)', 'credential rows carry lists of str channels (list membership = string equality)'],
+    ),
+    'C04': dict(
+        module='Hpfeeds.Props.C04', file='Hpfeeds/Props/C04.lean',
+        engines=[('broker', dict(prop='C04'))],
+        trusted=['asyncio transport/loop contract as implemented by harness FakeTransport/VirtualLoop (DESIGN.md 3c), in particular: write() after close() is accepted by a selector transport, so only the broker not writing protects a closing connection'],
+    ),
+    'C09': dict(
+        module='Hpfeeds.Props.C09', file='Hpfeeds/Props/C09.lean',
+        engines=[('broker', dict(prop='C09'))],
+        trusted=['asyncio transport/loop contract as implemented by harness FakeTransport/VirtualLoop (DESIGN.md 3c): connection_lost is reported once per transport'],
+    ),
     'C05': dict(
         module='Hpfeeds.Props.C05', file='Hpfeeds/Props/C05.lean',
         engines=[('codec', dict(sections=['roundtrip', 'readers']))],
